@@ -22,7 +22,8 @@ RULE = ("a case is a namespace tree on disk (3-12 definitions in 1-3 root direct
         "that component / two names equal up to case in different versions referenced with all (spelling, version) combinations / a self "
         "reference or 2-/3-cycle through a definition that has a twin in a same-named second root directory / versions >= 10 and "
         "unreferenced versions whose decimal digits concatenate like a referenced one (11.0 / 1.10) / one definition referring to a "
-        "type twice, exactly spelled and in another letter case, in both orders / a relative reference whose only case-insensitive "
+        "type twice, exactly spelled and in another letter case, in both orders / a targeted stream of references to the version "
+        "neighbours m.255 / (m+1).0 with one or both present / a relative reference whose only case-insensitive "
         "candidate lives in a namespace spelled in another letter case (last / middle component, root directory)) plus read_namespace and read_files calls for several target subsets, and one read_files "
         "call per definition on its own; non-trivial = at least one call returns a type with a nested composite or fails in "
         "resolution; distinct = by hash of the canonical case")
@@ -836,9 +837,40 @@ def corpus():
     return out
 
 
+def gen_vneighbours(rng):
+    """Targeted: references to the version neighbours m.255 / (m+1).0 (versions that collide under any folding of (major,
+    minor) into one number with a radix <= 255): only the other neighbour present (the reference must be undefined), both
+    present (each reference must get exactly its own version), and 0.254 / 1.1 as control; relative and absolute, as field
+    and as array element, one referrer per reference."""
+    roots = [["a", rng.choice(ROOT_NAMES)]]
+    if rng.random() < 0.5:
+        roots.append(["b", "lib"])
+    defs = []
+    names = rng.sample(["Foo", "Bar", "Baz", "Qux", "Nee", "Zap", "Hop", "Lim"], rng.choice([5, 6, 7]))
+    for k, nm in enumerate(names):
+        r = rng.choice(roots)
+        d = r + ([rng.choice(SUBS[:2])] if rng.random() < 0.4 else [])
+        ns_name = ".".join([r[-1]] + d[len(r):])
+        lo, hi = rng.choice([((0, 255), (1, 0)), ((1, 255), (2, 0)), ((254, 255), (255, 0)), ((2, 255), (3, 0)), ((0, 254), (1, 1))])
+        mode = ["only-hi", "only-lo", "both", "both"][k % 4]
+        present = {"only-hi": [hi], "only-lo": [lo], "both": [lo, hi]}[mode]
+        for v in present:
+            defs.append(mkfile(len(defs), d, nm, v[0], v[1], [["plain", 8 if v == lo else 16]]))
+        for j, v in enumerate((lo, hi)):
+            rel = rng.random() < 0.5
+            name = nm if rel else ns_name + "." + nm
+            ud = d if rel else rng.choice(roots) + ([rng.choice(SUBS[:2])] if rng.random() < 0.3 else [])
+            defs.append(mkfile(len(defs), ud, "Use%s%d" % (nm, j), 1, 0, [["ref", name, v[0], v[1], rng.choice([0, 0, 2])], ["plain", 8]]))
+    qs = all_dirs_queries(rng, roots, defs)
+    return {"files": defs, "queries": qs, "flavor": "version-neighbours", "dirs": roots}
+
+
 def generate(rng, tier):
     cases = corpus()
     streams = ["corpus"] * len(cases)
+    for _ in range(10 if tier == "quick" else 50):
+        cases.append(gen_vneighbours(rng))
+        streams.append("targeted")
     n = 420 if tier == "quick" else 4000
     for _ in range(n):
         cases.append(gen_case(rng, tier))
